@@ -21,7 +21,29 @@ func VerifSetEtcdFactory(f func(endpoints []string) (internal.EtcdClient, error)
 // VerifTriggerReload does what the connection-state watcher does when the
 // connection is re-established: cluster.reload with the cluster's client.
 // Synchronous; the caller provides the goroutine.
-func VerifTriggerReload(endpoints []string) bool { return internal.VerifReload(endpoints) }
+func VerifTriggerReload(endpoints []string) bool {
+	return any(internal.GetRegistry()).(verifRegistry).VerifReload(endpoints)
+}
 
 // VerifResetRegistry gives the process a fresh registry / connection manager.
-func VerifResetRegistry() { internal.VerifResetRegistry() }
+func VerifResetRegistry() { any(internal.GetRegistry()).(verifRegistry).VerifResetRegistry() }
+
+// verifRegistry: the accessors added to *internal.Registry by internal/verif_c13.go.
+type verifRegistry interface {
+	VerifReload(endpoints []string) bool
+	VerifResetRegistry()
+}
+
+// VerifPublisherKeepAlive is Publisher.KeepAlive (register, then keep the lease
+// alive asynchronously) without its proc.AddWrapUpListener call: core/proc's
+// process-wide listener manager holds a real sync.WaitGroup, which the runtime
+// refuses to share between synctest bubbles (fatal error in the second run of a
+// process).  The shutdown hook is outside the property.
+func VerifPublisherKeepAlive(p *Publisher) error {
+	cli, err := p.doRegister()
+	if err != nil {
+		return err
+	}
+
+	return p.keepAliveAsync(cli)
+}
